@@ -226,6 +226,12 @@ func (e *attackEnv) attackArchive(what string, data []byte, key hpke.PrivateKey,
 		newfiles = countFiles(out, "")
 	}
 	e.emit("unpack", class, what, err == nil, fmt.Sprint(err), nil, true, newfiles, countFiles(parent, out), err == nil && sameTree(out, e.files))
+	// staged unpack into a destination that already exists and is empty (what mktemp -d or a mounted volume gives): the same
+	// demand - an error leaves nothing in it
+	os.RemoveAll(parent)
+	os.MkdirAll(out, 0o755)
+	err = retriever.Unpack(retriever.UnpackOptions{ArchiveReader: bytes.NewReader(data), ArchiveIdentity: key, OutputDir: out})
+	e.emit("unpack", class, what+" (destination exists, empty)", err == nil, fmt.Sprint(err), nil, true, countFiles(out, ""), countFiles(parent, out), err == nil && sameTree(out, e.files))
 	// load straight from the archive
 	db := fakedb.New()
 	lo := retriever.LoadOptions{ArchiveReader: bytes.NewReader(data), ArchiveIdentity: key, BatchSize: 2}
